@@ -3,6 +3,11 @@ pub mod c02;
 pub mod c03;
 pub mod c04;
 pub mod c05;
+pub mod c06;
+pub mod c07;
+pub mod c08;
+pub mod c09;
+pub mod backend;
 pub mod common;
 
 use crate::runner::Ctx;
@@ -15,6 +20,12 @@ pub fn run_check(ctx: &Ctx) -> i32 {
         "C03" => c03::check(ctx),
         "C04" => c04::check(ctx),
         "C05" => c05::check(ctx),
+        "C06" => c06::check(ctx),
+        "C07" => c07::check(ctx),
+        "C08" => c08::check(ctx),
+        "C09" => c09::check(ctx),
+        "C10" => c09::run(ctx, &c09::c10_spec(ctx)),
+        "C13" => c09::run(ctx, &c09::c13_spec(ctx)),
         other => {
             eprintln!("unknown property {other}");
             2
@@ -39,6 +50,12 @@ pub fn run_replay(ctx: &Ctx, file: &Path) -> i32 {
         "C03" => c03::replay(ctx, &sub, &bytes, &v["case"]),
         "C04" => c04::replay(ctx, &sub, &bytes, &v["case"]),
         "C05" => c05::replay(ctx, &sub, &bytes, &v["case"]),
+        "C06" => c06::replay(ctx, crate::pipeline::Arch::X86, &sub, &bytes, &v["case"]),
+        "C07" => c06::replay(ctx, crate::pipeline::Arch::A64, &sub, &bytes, &v["case"]),
+        "C08" => c08::replay(ctx, &sub, &bytes, &v["case"]),
+        "C09" => c09::replay(ctx, &c09::c09_spec(ctx), &sub, &bytes, &v["case"]),
+        "C10" => c09::replay(ctx, &c09::c10_spec(ctx), &sub, &bytes, &v["case"]),
+        "C13" => c09::replay(ctx, &c09::c13_spec(ctx), &sub, &bytes, &v["case"]),
         other => {
             eprintln!("unknown property {other}");
             return 2;
